@@ -372,7 +372,7 @@ where
         confirmed: bool,
     ) -> Result<SendResponse, Error<R::PhyError>> {
         // Prepare transmission buffer
-        let (tx_config, rx_windows, _fcnt_up) = self.mac.send::<G, N>(
+        let (tx_config, rx_windows, fcnt_up) = self.mac.send::<G, N>(
             &mut self.rng,
             &mut self.radio_buffer,
             &SendData { data, fport, confirmed },
@@ -386,7 +386,15 @@ where
 
         // Wait for received data within window
         self.timer.reset();
-        Ok(self.rx_downlink(&Frame::Data, ms, &rx_windows).await?.into())
+        match self.rx_downlink(&Frame::Data, ms, &rx_windows).await {
+            Ok(response) => Ok(response.into()),
+            Err(e) => {
+                // The frame has been transmitted: its frame counter must never be used
+                // again, even though the receive procedure did not run to completion.
+                self.mac.uplink_aborted(fcnt_up);
+                Err(e)
+            }
+        }
     }
 
     /// Take the downlink data from the device. This is typically called after a
